@@ -388,6 +388,235 @@ theorem evalI_simpl (P : Prims) (hP : P.Lawful) : ∀ e : Arith, e.WF P → ∀ 
       · exact hE
     exact ⟨h, h, h⟩
 
+/-! Generalisation: any invariant `Q` of environments that assignments of formatted integers keep. -/
+
+theorem evalI_pres (P : Prims) (Q : Env → Prop)
+    (hQ : ∀ (env : Env) (n : Bytes) (k : Int), Q env → Q (env.set n (P.fmt k))) : ∀ (e : Arith) (env : Env) (v : Int) (env' : Env),
+    Q env → evalI P env e = some (v, env') → Q env' := by
+  intro e
+  induction e with
+  | lit w => intro env v env' hE h; simp [evalI] at h; rw [← h.2]; exact hE
+  | dollar b n => intro env v env' hE h; simp [evalI] at h; rw [← h.2]; exact hE
+  | paren x ih => intro env v env' hE h; simp only [evalI] at h; exact ih env v env' hE h
+  | unary op post x ih =>
+    intro env v env' hE h
+    simp only [evalI] at h
+    cases hd : P.incDec op with
+    | some d =>
+      rw [hd] at h
+      cases x with
+      | lit name =>
+        simp at h
+        rw [← h.2]
+        exact hQ env _ _ hE
+      | _ => simp at h
+    | none =>
+      rw [hd] at h
+      try simp only at h
+      cases hx : evalI P env x with
+      | none => rw [hx] at h; simp at h
+      | some r =>
+        obtain ⟨v1, env1⟩ := r
+        rw [hx] at h
+        simp at h
+        obtain ⟨_, _, _, rfl⟩ := h
+        exact ih env v1 env1 hE hx
+  | tern c a b ihc iha ihb =>
+    intro env v env' hE h
+    simp only [evalI] at h
+    cases hx : evalI P env c with
+    | none => rw [hx] at h; simp at h
+    | some r =>
+      obtain ⟨cv, env1⟩ := r
+      rw [hx] at h
+      try simp only at h
+      have hE1 := ihc env cv env1 hE hx
+      by_cases hc0 : cv ≠ 0
+      · rw [if_pos hc0] at h
+        exact iha env1 v env' hE1 h
+      · rw [if_neg hc0] at h
+        exact ihb env1 v env' hE1 h
+  | binary op x y ihx ihy =>
+    intro env v env' hE h
+    simp only [evalI] at h
+    cases ha : P.assignOp op with
+    | some f =>
+      rw [ha] at h
+      cases x with
+      | lit name =>
+        try simp only at h
+        cases hy : evalI P env y with
+        | none => rw [hy] at h; simp at h
+        | some r =>
+          obtain ⟨arg, env1⟩ := r
+          rw [hy] at h
+          try simp only at h
+          cases hf : f (P.atoi (env name)) arg with
+          | none => rw [hf] at h; simp at h
+          | some val =>
+            rw [hf] at h
+            simp at h
+            rw [← h.2]
+            exact hQ env1 _ _ (ihy env arg env1 hE hy)
+      | _ => simp at h
+    | none =>
+      rw [ha] at h
+      try simp only at h
+      cases hx : evalI P env x with
+      | none => rw [hx] at h; simp at h
+      | some r =>
+        obtain ⟨l, env1⟩ := r
+        rw [hx] at h
+        try simp only at h
+        have hE1 := ihx env l env1 hE hx
+        by_cases hand : P.isAnd op = true
+        · simp only [hand, if_true] at h
+          by_cases hl : l = 0
+          · simp [hl] at h; rw [← h.2]; exact hE1
+          · rw [if_neg hl] at h
+            cases hy : evalI P env1 y with
+            | none => rw [hy] at h; simp at h
+            | some r2 =>
+              obtain ⟨r, env2⟩ := r2
+              rw [hy] at h
+              simp at h
+              rw [← h.2]
+              exact ihy env1 r env2 hE1 hy
+        · simp only [hand] at h
+          by_cases hor : P.isOr op = true
+          · simp only [hor, if_true] at h
+            by_cases hl : l ≠ 0
+            · simp [hl] at h; rw [← h.2]; exact hE1
+            · rw [if_neg hl] at h
+              cases hy : evalI P env1 y with
+              | none => rw [hy] at h; simp at h
+              | some r2 =>
+                obtain ⟨r, env2⟩ := r2
+                rw [hy] at h
+                simp at h
+                rw [← h.2]
+                exact ihy env1 r env2 hE1 hy
+          · simp only [hor] at h
+            cases hy : evalI P env1 y with
+            | none => rw [hy] at h; simp at h
+            | some r2 =>
+              obtain ⟨r, env2⟩ := r2
+              rw [hy] at h
+              simp at h
+              obtain ⟨_, _, _, rfl⟩ := h
+              exact ihy env1 r env2 hE1 hy
+
+
+/-- evaluation only looks at the results of the operands: congruence for `binary`. -/
+theorem evalI_binary_congr_Q (P : Prims) (Q : Env → Prop)
+    (hQ : ∀ (env : Env) (n : Bytes) (k : Int), Q env → Q (env.set n (P.fmt k))) (op : Nat) (x x' y y' : Arith)
+    (hx : ∀ env, Q env → evalI P env x' = evalI P env x)
+    (hy : ∀ env, Q env → evalI P env y' = evalI P env y)
+    (hl : ∀ n, x = .lit n → x' = .lit n)
+    (hw : (P.assignOp op).isSome → ∃ n, x = .lit n)
+    (env : Env) (hE : Q env) :
+    evalI P env (.binary op x' y') = evalI P env (.binary op x y) := by
+  simp only [evalI]
+  cases ha : P.assignOp op with
+  | some f =>
+    obtain ⟨n, rfl⟩ := hw (by simp [ha])
+    rw [hl n rfl]
+    simp only [hy env hE]
+  | none =>
+    simp only [hx env hE]
+    cases hxe : evalI P env x with
+    | none => rfl
+    | some r =>
+      obtain ⟨l, env1⟩ := r
+      have hE1 := evalI_pres P Q hQ x env l env1 hE hxe
+      simp only [hy env1 hE1]
+
+
+/-- The names in `D` do not hold names. -/
+def NoNamesOn (D : List Bytes) (env : Env) : Prop := ∀ m, m ∈ D → validName (env m) = false
+
+theorem noNamesOn_set (P : Prims) (hP : P.Lawful) (D : List Bytes) (env : Env) (n : Bytes) (k : Int)
+    (hE : NoNamesOn D env) : NoNamesOn D (env.set n (P.fmt k)) := by
+  intro m hm
+  unfold Env.set
+  by_cases h : m = n
+  · simp [h, hP.fmt_not_name]
+  · simp [h, hE m hm]
+
+theorem evalI_inline_on (P : Prims) (hP : P.Lawful) (env : Env) (e : Arith)
+    (hE : ∀ n, n ∈ e.dollars → validName (env n) = false) :
+    evalI P env (Arith.inline e) = evalI P env e := by
+  cases e with
+  | dollar b n =>
+    have hn := hE n (by simp [Arith.dollars])
+    simp only [Arith.inline]
+    by_cases hv : validName n = true
+    · simp only [hv, if_true, evalI]
+      have h1 := deref_not_name env maxNameRefDepth (env n) hn
+      have h2 := deref_not_name env 99 (env n) hn
+      rw [deref_name env n hv, h1]
+      by_cases he : env n = []
+      · simp [he, hP.atoi_name n hv]
+      · simp [he, h2]
+    · simp [hv]
+  | _ => rfl
+
+theorem evalI_simpl_on (P : Prims) (hP : P.Lawful) (D : List Bytes) : ∀ e : Arith, e.WF P →
+    (∀ n, n ∈ e.dollars → n ∈ D) → ∀ env : Env, NoNamesOn D env →
+    (evalI P env e.top = evalI P env e ∧ evalI P env e.walk = evalI P env e ∧
+     evalI P env e.walkInl = evalI P env e) := by
+  have hQ := fun env n k h => noNamesOn_set P hP D env n k h
+  intro e
+  induction e with
+  | lit v => intro _ _ env _; exact ⟨rfl, rfl, rfl⟩
+  | dollar b n =>
+    intro _ hd env hE
+    have := evalI_inline_on P hP env (.dollar b n) (fun m hm => hE m (hd m hm))
+    exact ⟨this, rfl, this⟩
+  | paren x ih =>
+    intro hw hd env hE
+    have := ih hw hd env hE
+    refine ⟨?_, ?_, ?_⟩
+    · simpa [Arith.top, evalI] using this.1
+    · simpa [Arith.walk, evalI] using this.1
+    · simpa [Arith.walkInl, evalI] using this.1
+  | unary op post x ih =>
+    intro hw hd env hE
+    have hx : evalI P env (.unary op post x.walk) = evalI P env (.unary op post x) := by
+      simp only [evalI]
+      cases hdd : P.incDec op with
+      | some d =>
+        obtain ⟨n, rfl⟩ := hw.1 (by simp [hdd])
+        rfl
+      | none => simp only [(ih hw.2 hd env hE).2.1]
+    exact ⟨hx, hx, hx⟩
+  | tern c a b ihc iha ihb =>
+    intro hw hd env hE
+    have hdc : ∀ n, n ∈ c.dollars → n ∈ D := fun n hn => hd n (by simp [Arith.dollars, hn])
+    have hda : ∀ n, n ∈ a.dollars → n ∈ D := fun n hn => hd n (by simp [Arith.dollars, hn])
+    have hdb : ∀ n, n ∈ b.dollars → n ∈ D := fun n hn => hd n (by simp [Arith.dollars, hn])
+    have h : evalI P env (.tern c.walkInl a.walkInl b.walkInl) = evalI P env (.tern c a b) := by
+      simp only [evalI, (ihc hw.1 hdc env hE).2.2]
+      cases hce : evalI P env c with
+      | none => rfl
+      | some r =>
+        obtain ⟨v, env1⟩ := r
+        have hE1 := evalI_pres P (NoNamesOn D) hQ c env v env1 hE hce
+        simp only [(iha hw.2.1 hda env1 hE1).2.2, (ihb hw.2.2 hdb env1 hE1).2.2]
+    exact ⟨h, h, h⟩
+  | binary op x y ihx ihy =>
+    intro hw hd env hE
+    have hdx : ∀ n, n ∈ x.dollars → n ∈ D := fun n hn => hd n (by simp [Arith.dollars, hn])
+    have hdy : ∀ n, n ∈ y.dollars → n ∈ D := fun n hn => hd n (by simp [Arith.dollars, hn])
+    have h : evalI P env (.binary op x.walkInl y.walkInl) = evalI P env (.binary op x y) := by
+      apply evalI_binary_congr_Q P (NoNamesOn D) hQ op x x.walkInl y y.walkInl
+      · intro env hE; exact (ihx hw.2.1 hdx env hE).2.2
+      · intro env hE; exact (ihy hw.2.2 hdy env hE).2.2
+      · intro n hn; exact walkInl_lit x n hn
+      · exact hw.1
+      · exact hE
+    exact ⟨h, h, h⟩
+
 end ArithInterp
 
 section ArithBash
@@ -520,18 +749,18 @@ theorem evalB_frame (P : Prims) (env0 : IEnv) : ∀ (e : Arith) (env : IEnv) (v 
 
 
 theorem evalB_inline (P : Prims) (env0 env : IEnv) (e : Arith)
-    (h : ∀ n, n ∈ e.dollars → env n = env0 n) :
+    (h : ∀ n, n ∈ e.dollars → validName n = true → env n = env0 n) :
     evalB P env0 env (Arith.inline e) = evalB P env0 env e := by
   cases e with
   | dollar b n =>
     simp only [Arith.inline]
     by_cases hv : validName n = true
-    · simp [hv, evalB, h n (by simp [Arith.dollars])]
+    · simp [hv, evalB, h n (by simp [Arith.dollars]) hv]
     · simp [hv]
   | _ => rfl
 
 theorem evalB_simpl (P : Prims) (env0 : IEnv) (D : List Bytes) : ∀ e : Arith, e.WF P →
-    (∀ n, n ∈ e.dollars → n ∈ D) → (∀ n, n ∈ D → n ∉ e.assigned P) →
+    (∀ n, n ∈ e.dollars → validName n = true → n ∈ D) → (∀ n, n ∈ D → n ∉ e.assigned P) →
     ∀ env : IEnv, (∀ n, n ∈ D → env n = env0 n) →
     (evalB P env0 env e.top = evalB P env0 env e ∧ evalB P env0 env e.walk = evalB P env0 env e ∧
      evalB P env0 env e.walkInl = evalB P env0 env e) := by
@@ -540,7 +769,7 @@ theorem evalB_simpl (P : Prims) (env0 : IEnv) (D : List Bytes) : ∀ e : Arith, 
   | lit v => intro _ _ _ env _; exact ⟨rfl, rfl, rfl⟩
   | dollar b n =>
     intro _ hd _ env hE
-    have := evalB_inline P env0 env (.dollar b n) (fun m hm => hE m (hd m hm))
+    have := evalB_inline P env0 env (.dollar b n) (fun m hm hv => hE m (hd m hm hv))
     exact ⟨this, rfl, this⟩
   | paren x ih =>
     intro hw hd ha env hE
@@ -563,9 +792,9 @@ theorem evalB_simpl (P : Prims) (env0 : IEnv) (D : List Bytes) : ∀ e : Arith, 
     exact ⟨hx, hx, hx⟩
   | tern c a b ihc iha ihb =>
     intro hw hd ha env hE
-    have hdc : ∀ n, n ∈ c.dollars → n ∈ D := fun n hn => hd n (by simp [Arith.dollars, hn])
-    have hda : ∀ n, n ∈ a.dollars → n ∈ D := fun n hn => hd n (by simp [Arith.dollars, hn])
-    have hdb : ∀ n, n ∈ b.dollars → n ∈ D := fun n hn => hd n (by simp [Arith.dollars, hn])
+    have hdc : ∀ n, n ∈ c.dollars → validName n = true → n ∈ D := fun n hn hv => hd n (by simp [Arith.dollars, hn]) hv
+    have hda : ∀ n, n ∈ a.dollars → validName n = true → n ∈ D := fun n hn hv => hd n (by simp [Arith.dollars, hn]) hv
+    have hdb : ∀ n, n ∈ b.dollars → validName n = true → n ∈ D := fun n hn hv => hd n (by simp [Arith.dollars, hn]) hv
     have hac : ∀ n, n ∈ D → n ∉ c.assigned P := fun n hn hm => ha n hn (by simp [Arith.assigned, hm])
     have haa : ∀ n, n ∈ D → n ∉ a.assigned P := fun n hn hm => ha n hn (by simp [Arith.assigned, hm])
     have hab : ∀ n, n ∈ D → n ∉ b.assigned P := fun n hn hm => ha n hn (by simp [Arith.assigned, hm])
@@ -581,8 +810,8 @@ theorem evalB_simpl (P : Prims) (env0 : IEnv) (D : List Bytes) : ∀ e : Arith, 
     exact ⟨h, h, h⟩
   | binary op x y ihx ihy =>
     intro hw hd ha env hE
-    have hdx : ∀ n, n ∈ x.dollars → n ∈ D := fun n hn => hd n (by simp [Arith.dollars, hn])
-    have hdy : ∀ n, n ∈ y.dollars → n ∈ D := fun n hn => hd n (by simp [Arith.dollars, hn])
+    have hdx : ∀ n, n ∈ x.dollars → validName n = true → n ∈ D := fun n hn hv => hd n (by simp [Arith.dollars, hn]) hv
+    have hdy : ∀ n, n ∈ y.dollars → validName n = true → n ∈ D := fun n hn hv => hd n (by simp [Arith.dollars, hn]) hv
     have hax : ∀ n, n ∈ D → n ∉ x.assigned P := fun n hn hm => ha n hn (by simp [Arith.assigned, hm])
     have hay : ∀ n, n ∈ D → n ∉ y.assigned P := fun n hn hm => ha n hn (by simp [Arith.assigned, hm])
     have h : evalB P env0 env (.binary op x.walkInl y.walkInl) = evalB P env0 env (.binary op x y) := by
